@@ -959,6 +959,12 @@ def build_dataset(ctx, rng, nns, fmt, lstyle, attached=False, overlap=False):
                 sub = sub[:1]          # single row: not affected by the per-cell column ids
             rows = U.gen_rows(rng, dtype, len(sub), ncols, pick_style(rng, dtype), alphabet)
             m, sa = from_dict(dtype, sub, rows, alphabet, taxon_namespace=ns, label=title("m"))
+            if rng.random() < 0.4:
+                # matrices with named character subsets (as produced by concatenate): the writers emit a SETS / CHARSET
+                # section between this matrix and whatever follows it in the document
+                for j in range(rng.randint(1, 2)):
+                    idx = sorted(rng.sample(range(ncols), rng.randint(1, ncols)))
+                    m.new_character_subset(label="cs%d_%d" % (nmat, j), character_indices=idx)
             ds.add_char_matrix(m)
             desc["matrices"].append((k, dtype, alphabet, extract(m)))
             nmat += 1
